@@ -426,9 +426,10 @@ AlwaysRevertible ==
 \* the access-list journal invariant quoted in journal.go: no slot without its address
 AccessListWellFormed == \A a \in Addrs, s \in Slots : st.alS[a][s] => st.alA[a]
 
-\* emit explored behaviours for replay on the implementation: those ending in a revert (journal level)
-\* or with the end of the transaction (EVM level)
+\* emit explored behaviours for replay on the implementation: every transition that is a revert / a failed
+\* frame (with the history that led to it) and every end of a transaction.  The emitting configurations
+\* do not use VIEW, so that behaviours that differ only in what was reverted earlier stay distinct.
 EmitHist ==
-    IF hist'[Len(hist')].op \in {"revert"} \/ (cnt'.done /\ ~cnt.done)
+    IF hist'[Len(hist')].op \in {"revert", "popabort"} \/ (cnt'.done /\ ~cnt.done)
     THEN PrintT("@@" \o ToJson(hist')) ELSE TRUE
 =============================================================================
